@@ -6,6 +6,7 @@ import (
 	"bytes"
 	"fmt"
 	"mime"
+	"strings"
 	"testing"
 	"unicode/utf8"
 
@@ -296,7 +297,7 @@ func c11Gen(t *rapid.T) c11Case {
 	case 1: // pieces
 		n := rapid.IntRange(1, 8).Draw(t, "n")
 		for i := 0; i < n; i++ {
-			x = append(x, rapid.SampledFrom([]string{"a", "text ", "\n", "\xc3\xa9", "\xe2\x82\xac", "\xf0\x9f\x98\x80", "\xe9", "\x85", "\x93", "\xa0", "\xff", "\xc3", "\xe2\x82", "\xf0\x9f\x98", "\x1b", "\x7f", "\xed\xa0\x80", "\xc0\x80", "\xed\xb0\x80", "\xed\xaf\xbf", "\xed\xbf\xbf", "\xed\xa0\x80\xed\xb0\x80", "\xed\xa1\x8c\xed\xbe\xb4", "\xe0\x80\xaf", "\xf0\x80\x80\xaf", "\xf4\x90\x80\x80", "\xf8\x88\x80\x80\x80", "\xc1\xbf", "\xed\x9f\xbf", "\xef\xbb\xbf", "\xff\xfe", "\xfe\xff",
+			x = append(x, rapid.SampledFrom([]string{"a", "text ", "\n", "\xc3\xa9", "\xe2\x82\xac", "\xf0\x9f\x98\x80", "\xe9", "\x85", "\x93", "\xa0", "\xff", "\xc3", "\xe2\x82", "\xf0\x9f\x98", "\x1b", "\x7f", "\x1b$B", "\x1b(B", "\x1b$@", "\x1b(J", "\x1b$)C", "\x1b[0m", "~{", "~}", "\x0e", "\x0f", "\xed\xa0\x80", "\xc0\x80", "\xed\xb0\x80", "\xed\xaf\xbf", "\xed\xbf\xbf", "\xed\xa0\x80\xed\xb0\x80", "\xed\xa1\x8c\xed\xbe\xb4", "\xe0\x80\xaf", "\xf0\x80\x80\xaf", "\xf4\x90\x80\x80", "\xf8\x88\x80\x80\x80", "\xc1\xbf", "\xed\x9f\xbf", "\xef\xbb\xbf", "\xff\xfe", "\xfe\xff",
 				"\ufffd", "\ufffe", "\uffff", "\u0080", "\u07ff", "\u0800", "\ud7ff", "\ue000", "\U00010000", "\U0010ffff", "\xf4\x8f\xbf", "\xef\xbf"}).Draw(t, "pc")...)
 		}
 	case 2: // byte-class string, longer than the exhaustive scope
@@ -316,6 +317,11 @@ func c11Gen(t *rapid.T) c11Case {
 		pre := rapid.SampledFrom([]string{"<html><head><meta http-equiv=\"content-type\" content=\"text/html\"><meta name=\"description\" content=\"a page about charset=koi8-r and more\"></head><body>",
 			"<html><head><meta http-equiv=\"Content-Type\" content=\"text/html\"><meta name=\"keywords\" content=\"charset=utf-8\"><title>t</title>", "<?xml version=\"1.0\"?><a>", "<?xml version='1.0' standalone='yes'?>\n<doc>", "<html><body>", "<!DOCTYPE html><p>", " <html ><title>t</title>"}).Draw(t, "mpre")
 		mx := append([]byte(bom+pre), x...)
+		if strings.HasPrefix(pre, "<?xml") && !bytes.Contains(x, []byte("--")) && !bytes.Contains(x, []byte("?>")) && !bytes.Contains(x, []byte(">")) && rapid.IntRange(0, 2).Draw(t, "incomment") == 0 {
+			// the text sits inside a comment, a processing instruction or the DOCTYPE of a complete document
+			w := rapid.SampledFrom([][2]string{{"<!-- ", " --><r/>"}, {"<?note ", " ?><r/>"}, {"<!DOCTYPE r [ <!-- ", " --> ]><r/>"}}).Draw(t, "wrap")
+			mx = append(append(append([]byte(bom+"<?xml version=\"1.0\"?>"), w[0]...), x...), w[1]...)
+		}
 		return c11Case{X: mx, Via: "detect", Limit: vfGenLimit(t, len(mx)), Markup: true}
 	}
 	c := c11Case{X: x, Via: rapid.SampledFrom([]string{"plain", "detect", "detect"}).Draw(t, "via")}
